@@ -511,6 +511,44 @@ LIMIT_PARAM = {"PAPRConstraint": "max_papr", "PeakAmplitudeConstraint": "peak_am
 SAMPLE_LIMITS = {"max_papr": 3.7, "peak_amplitude": 0.9, "total_power": 1.3, "uniform_power": 0.6, "average_power": 0.8, "num_antennas": 4}
 
 
+def rule_combine(repo: Repo, rep: Report) -> int:
+    """combine_constraints(list) applies the given constraints in the given order (a nested composite contributes its own
+    parts in their order at its place).  The function body is run (own arithmetic, model objects for composites) on sample
+    lists and the depth-first order of the result is compared with that of the argument."""
+    from ..constfold import PySeq, Unfoldable
+    from ..frag import FragRaise, FragReturn, run_fragment
+    from ..gf2 import EvalObj
+
+    class Comp(EvalObj):
+        def __init__(self, constraints):
+            self.constraints = PySeq(constraints)
+
+    def flat(z):
+        if isinstance(z, Comp):
+            return [y for t in z.constraints for y in flat(t)]
+        return [z]
+
+    fi = repo.func(CU, "combine_constraints")
+    samples = [["A", "B"], ["A", Comp(["B", "C"])], [Comp(["A", "B"]), Comp(["C", "D"])], ["A", Comp(["B", Comp(["C", "D"]), "E"]), "F"], [Comp(["A", "B", "C"]), "D"]]
+    what = "combine_constraints: order of application"
+    for smp in samples:
+        try:
+            run_fragment(fi.body, {"constraints": PySeq(smp)}, {}, ctors={"CompositeConstraint": Comp}, max_steps=5000)
+            rep.undecided("COMPOSITE-ORDER", fi, what, "no value returned")
+            return 1
+        except FragReturn as r:
+            got = r.value
+        except (Unfoldable, FragRaise, TypeError) as exc:
+            rep.undecided("COMPOSITE-ORDER", fi, what, f"not evaluable ({exc})")
+            return 1
+        want = [y for t in smp for y in flat(t)]
+        if flat(got) != want:
+            rep.violation("COMPOSITE-ORDER", fi, what, f"for the list {[('(' + ' '.join(flat(t)) + ')') if isinstance(t, Comp) else t for t in smp]} the combined constraint applies {flat(got)} instead of {want}: non-commuting parts (power scaling and clipping) give a different signal, and the last-applied limit is not the one the caller put last", node=fi.node)
+            return 1
+    rep.ok("COMPOSITE-ORDER", fi, what, f"depth-first order of the argument on {len(samples)} sample lists (nested composites included)", node=fi.node)
+    return 1
+
+
 def rule_limit_forward(repo: Repo, rep: Report) -> int:
     """Each stage of a factory-built composite enforces the limit the caller configured: the limit argument of every stage
     constructor, evaluated (own arithmetic) for sample parameter values and both values of every boolean option, equals
@@ -567,6 +605,7 @@ def rule_limit_forward(repo: Repo, rep: Report) -> int:
 
 def run(repo: Repo, rep: Report, tier: str) -> None:
     n = rule_limit_forward(repo, rep)
+    n += rule_combine(repo, rep)
     n += analyse_power_class(repo, rep, "TotalPowerConstraint", "total_power", "total_power_factor", "T", False)
     n += analyse_power_class(repo, rep, "AveragePowerConstraint", "average_power", "power_avg_factor", "A", True)
     n += rule_per_antenna(repo, rep)
